@@ -321,7 +321,7 @@ func CheckC18(c *Ctx) {
 		gen.Cover(c.Rand("cover", v.Name), v, false, func(a spec.Assign) { src = append(src, v.Canonical(a)) })
 		r := c.Rand("valid", v.Name)
 		for len(src) < c.Pick(4000, 60_000) {
-			a := gen.SparseAssign(r, v, r.Intn(5), 4)
+			a := gen.MixedAssign(r, v)
 			if v.ID == spec.V30 || v.ID == spec.V31 {
 				// any order
 				s, _ := gen.RandomSpelling(r, v, a)
